@@ -1,6 +1,6 @@
 (* C01: generated serializers emit exactly the DSDL wire representation.
    Statements only; proofs in Spec/WireThm*.v (specification level) and Codec/Refine.v, Codec/RefineSer*.v (code-shaped walker). *)
-From Verif Require Import Wire WireThm WireThmRt WireThmValid Walker Refine RefineSerBits PrimsOn RefineSerBase RefineSer Gen_C01 GenC01Thm InstancesC InstancesCpp InstancesPy InstancesTyped BulkArrays BulkArraysTie TargetPre TargetPreThm PyWalker PyWalkerThm PyWalkerPre InstancesPySer InstancesOpt WalkerX RefineSerX InstancesX WireThmCast CppWalker CppWalkerThm CppWalkerInst.
+From Verif Require Import Wire WireThm WireThmRt WireThmValid Walker Refine RefineSerBits PrimsOn RefineSerBase RefineSer Gen_C01 GenC01Thm InstancesC InstancesCpp InstancesPy InstancesTyped BulkArrays BulkArraysTie TargetPre TargetPreThm PyWalker PyWalkerThm PyWalkerPre InstancesPySer InstancesOpt WalkerX RefineSerX InstancesX WireThmCast CppWalker CppWalkerThm CppWalkerInst PrimsCur F16SatCode.
 Local Open Scope nat_scope.
 
 (* every encoding of every well-formed type lies within the exported bounds; composites are whole bytes *)
@@ -261,7 +261,7 @@ Proof. vm_compute. reflexivity. Qed.
    (B) DE-TOTALISED stores: under the walker's store law the nunavutSetUxx call returns `Some (inl _)` - neither `None` (undefined
        behaviour in the CPrims model) nor `TooSmall`; and the adapter `c_set_bits` reports success only for `Some (inl _)`. *)
 Theorem c01_c_store_defined : forall little buf off v, c_dom buf -> length v <= 64 -> off + length v <= length buf ->
-  exists r, CPrims.set_uxx little (InstancesBase.bytes_of_bits buf) (CPrims.blen (InstancesBase.bytes_of_bits buf)) (N.of_nat off)
+  exists r, set_uxx_cur little (InstancesBase.bytes_of_bits buf) (CPrims.blen (InstancesBase.bytes_of_bits buf)) (N.of_nat off)
               (N_of_bits v) (N.of_nat (length v)) = Some (inl r) /\
             bits_of_bytes r = firstn off buf ++ v ++ skipn (off + length v) buf.
 Proof. exact c_store_defined. Qed.
@@ -269,7 +269,7 @@ Print Assumptions c01_c_store_defined.
 
 Theorem c01_c_set_bits_some_iff : forall little buf off v r,
   set_bits (c_prims little) buf off v = Some r <->
-  exists r', CPrims.set_uxx little (InstancesBase.bytes_of_bits buf) (CPrims.blen (InstancesBase.bytes_of_bits buf)) (N.of_nat off)
+  exists r', set_uxx_cur little (InstancesBase.bytes_of_bits buf) (CPrims.blen (InstancesBase.bytes_of_bits buf)) (N.of_nat off)
                (N_of_bits v) (N.of_nat (length v)) = Some (inl r') /\ r = bits_of_bytes r'.
 Proof. exact c_set_bits_some_iff. Qed.
 Print Assumptions c01_c_set_bits_some_iff.
@@ -338,6 +338,35 @@ Theorem c01_cpp_shaped_buffer_effect : forall u fs ext v buf cap bits,
   cw_body cppw_prims (TComp u fs ext) v buf 0 (8 * cap) 0 = Ok (bits ++ skipn (length bits) buf, length bits).
 Proof. exact cppw_cw_body_effect. Qed.
 Print Assumptions c01_cpp_shaped_buffer_effect.
+
+(* CURRENT SOURCE (/repo ba46e0a, 939fc9d).  The instance records are built on the CURRENT texts: `c_prims` stores through
+   `PrimsCur.set_uxx_cur` (= CPrimsW.set_uxx_satM at the 64-bit size_t: nunavutSetUxx with the saturating capacity check),
+   `cpp_prims` / `cppw_prims` through `PrimsCur.cpp_set_uxx_cur` (bitspan::setUxx with the same check), and the C++-shaped walker's
+   sub-spans are `PrimsExt.subspan_clamped` / `subspan_bytes_clamped` (pointer clamped to one past the end; CppWalker.cd_subspan,
+   bridge CppWalkerInst.cd_subspan_is_subspan).  On every call whose offset + length does not wrap - every call the walkers issue -
+   the current and the previous texts coincide, so the C14 theorems about `set_uxx` / `cpp_set_uxx` (and the typed-member theorems
+   above, which are stated on C14's `set_ixx`, `set_bit`, `set_f*` whose bodies call that store) apply to the current functions. *)
+Theorem c01_set_uxx_cur_is_old : forall little buf size off value len, (size * 8 < CPrims.two64)%N -> (off + len < CPrims.two64)%N ->
+  set_uxx_cur little buf size off value len = CPrims.set_uxx little buf size off value len.
+Proof. exact set_uxx_cur_is_old. Qed.
+Print Assumptions c01_set_uxx_cur_is_old.
+
+Theorem c01_cpp_set_uxx_cur_is_old : forall s value len,
+  (CppPrims.sp_size s * 8 < CPrims.two64)%N -> (CppPrims.sp_off s + len < CPrims.two64)%N ->
+  cpp_set_uxx_cur s value len = CppPrims.cpp_set_uxx s value len.
+Proof. exact cpp_set_uxx_cur_is_old. Qed.
+Print Assumptions c01_cpp_set_uxx_cur_is_old.
+
+(* float16 SATURATION CODE (audit C01 #7; Codec/F16SatCode.v): the template's `if (isfinite(v)) { if (v < -65504.0f) v = -65504.0f;
+   if (v > 65504.0f) v = 65504.0f; }` modelled as IEEE-754 comparisons on binary32 patterns computes exactly `Wire.sat16`, the
+   function `Walker.storage_bits` / `float_arg` use - for every pattern incl. signed zeros, subnormals, infinities and NaNs *)
+Theorem c01_f16_sat_code_is_sat16 : forall x, sat_code x = sat16 x.
+Proof. exact sat_code_is_sat16. Qed.
+Print Assumptions c01_f16_sat_code_is_sat16.
+
+Theorem c01_float_arg_is_sat_code : forall x, float_arg 16 true x = sat_code (x mod 2 ^ 32)%N.
+Proof. exact float_arg_is_sat_code. Qed.
+Print Assumptions c01_float_arg_is_sat_code.
 
 (* (F) closed forms of what round-tripping does to a primitive (so that c01_encoding_decodes_to_cast is not circular at the leaves):
        saturated = clamp, truncated unsigned = mod 2^w, truncated signed = the wrapped representative, floats = pattern / f16
